@@ -76,8 +76,12 @@ def _c44_classes(i, o):
             cls.append('batch:now%sexp' % ('<' if clock < op[1] else '=' if clock == op[1] else '>'))
             if not op[3]:
                 cls.append('batch:verifies-under-no-key')
+            if op[4][1] >= 2:
+                cls.append('batch:sig-malformed(zero/random bytes)')
         elif op[0] == 0:
             cls.append('delegation:%s' % ('sig-ok' if op[3] else 'sig-bad'))
+            if op[4][1] >= 2:
+                cls.append('delegation:sig-unrecoverable(%s)' % ('zero' if op[4][1] == 2 else 'random'))
             cls.append('delegation:now%sexp' % ('<' if clock < op[1] else '=' if clock == op[1] else '>'))
         elif op[0] == 3:
             cls.append('rotation')
@@ -140,8 +144,10 @@ PROPS = {
         rule='bounded-exhaustive: every sequence of length <= 4 (thorough 5) over {clock 19/20/21, valid delegation (exp 20, key 0), '
              'valid delegation (exp 20, key 1), delegation signed by a non-current protocol key, batch for exp 20 signed by key 0, '
              'by key 1}; plus random histories of 2..14 (30) messages: delegations for expirations {10,20,30} signed by the current '
-             'or another protocol key or tampered, batches of 1..3 preconfirmations (all three variants, repeated transactions) '
-             'signed by any of 3 delegate keys or tampered, clock moves to just below / at / just above every expiration (also '
+             'or another protocol key, over other content, or carrying an UNRECOVERABLE signature (all-zero bytes / random bytes for '
+             'which secp256k1 recovery fails; also directed: such a delegation followed by a batch correctly signed by the delegate it '
+             'names, and one trying to overwrite a valid delegation), batches of 1..3 preconfirmations (all three variants, repeated transactions) '
+             'signed by any of 3 delegate keys, over other content, or with all-zero / random signature bytes, clock moves to just below / at / just above every expiration (also '
              'backwards), protocol-key rotations. non-trivial = distinct input with a non-empty trace',
         assumptions=['signature checks are oracle inputs: for every message the harness records whether the real secp256k1 recovery '
                      '(against ProtocolPublicKey::latest_address at that moment) / the real ed25519 verification (under each of the '
